@@ -83,6 +83,9 @@ func c03JSONNorm(d interface{}, inOrder bool) (interface{}, bool) {
 		if inOrder {
 			return nil, false
 		}
+		if d == nil {
+			return nil, true
+		}
 		r := make(map[string]interface{})
 		for _, k := range c03Keys(d) {
 			v, ok := c03JSONNorm(d[k], k == "$")
@@ -93,6 +96,10 @@ func c03JSONNorm(d interface{}, inOrder bool) (interface{}, bool) {
 		}
 		return r, true
 	case []interface{}:
+		if d == nil {
+			// a nil slice is encoded as JSON null, not as []
+			return nil, true
+		}
 		r := make([]interface{}, 0, len(d))
 		for _, e := range d {
 			v, ok := c03JSONNorm(e, inOrder)
@@ -122,7 +129,7 @@ func c03RefMerge(orig, upd interface{}) (res interface{}, ok bool) {
 	}
 	if oarr, isArr := orig.([]interface{}); isArr {
 		var order []interface{}
-		if o, has := u["$"]; has {
+		if o, has := u["$"]; has && o != nil { // merge.ts: update.$ || identity
 			order, ok = o.([]interface{})
 			if !ok {
 				return nil, false
